@@ -289,17 +289,22 @@ pub fn parse_file_internal(context: &ParseContext) -> Result<(), Error> {
 pub enum NextItem {
     NewLine,
     EndIf,
+    /// Skip up to `.endif` of current conditional, ignoring its `.elif`/`.else`
+    EndIfBlock,
     EndMacro,
     EndFile,
 }
 
+/// Returns next line for parsing and flag that this line is `.elif` which ended
+/// skipping of previous not taken branch (so its condition must be evaluated)
 fn skip<'a>(
     iter: &mut dyn Iterator<Item = (usize, &'a str)>,
     context: &ParseContext,
     ni: NextItem,
-) -> Option<(usize, &'a str)> {
+) -> (Option<(usize, &'a str)>, bool) {
     let mut scoup_count = 0;
-    match ni {
+    let mut pending_elif = false;
+    let ret = match ni {
         NextItem::NewLine => iter.next(),
         NextItem::EndFile => None,
         other => {
@@ -325,7 +330,7 @@ fn skip<'a>(
                 while let Some((num, line)) = iter.next() {
                     if let Ok(item) = document::line(line) {
                         if let Document::DirectiveLine(_, directive, _) = item {
-                            if other == NextItem::EndIf {
+                            if other == NextItem::EndIf || other == NextItem::EndIfBlock {
                                 if directive == Directive::If
                                     || directive == Directive::IfDef
                                     || directive == Directive::IfNDef
@@ -336,7 +341,14 @@ fn skip<'a>(
                                     || directive == Directive::ElIf
                                 {
                                     if scoup_count == 0 {
+                                        if other == NextItem::EndIfBlock
+                                            && directive != Directive::Endif
+                                        {
+                                            // one of branches already taken
+                                            continue;
+                                        }
                                         ret = if directive == Directive::ElIf {
+                                            pending_elif = true;
                                             Some((num, line))
                                         } else {
                                             iter.next()
@@ -355,7 +367,9 @@ fn skip<'a>(
             }
             ret
         }
-    }
+    };
+
+    (ret, pending_elif)
 }
 
 pub fn parse(input: &str, context: &ParseContext) -> Result<(), Error> {
@@ -371,7 +385,8 @@ pub fn parse_iter<'a>(
     let mut next_item = NextItem::NewLine;
 
     loop {
-        if let Some((line_num, line)) = skip(iter, context, next_item) {
+        let (next_line, pending_elif) = skip(iter, context, next_item);
+        if let Some((line_num, line)) = next_line {
             next_item = NextItem::NewLine; // clear conditional flag to typical state
             let line_num = line_num + 1;
             let parsed_item = document::line(line);
@@ -402,6 +417,11 @@ pub fn parse_iter<'a>(
                                     Item::Label(name),
                                 ));
                             }
+                        }
+                        if d == Directive::ElIf && !pending_elif {
+                            // reached from the end of taken branch, rest of conditional is skipped
+                            next_item = NextItem::EndIfBlock;
+                            continue;
                         }
                         let item = d.parse(&d_op_args, &context, CodePoint { line_num, num: 2 })?;
                         next_item = item;
